@@ -150,6 +150,39 @@ fn main() {
                 None => "none".to_string(),
             }
         }),
+        // flavours K T : the same block through every public construction path; prints one line of packets per path
+        "flavours" => catch(|| {
+            let k: usize = arg(&a, 1);
+            let t: u16 = arg(&a, 2);
+            let data: Vec<u8> = (0..k * t as usize).map(|i| (((i * 97 + 13) ^ (i >> 4)) & 0xFF) as u8).collect();
+            let cfg = ObjectTransmissionInformation::new(data.len() as u64, t, 1, 1, 1);
+            let esis: Vec<u32> = vec![0, 1, 7, 1 << 20, (1 << 24) - 1 - k as u32];
+            let show = |enc: &SourceBlockEncoder| -> String {
+                let mut v: Vec<String> = enc.source_packets().iter().map(|p| hex(p.data())).collect();
+                for e in &esis {
+                    v.push(hex(enc.repair_packets(*e, 1)[0].data()));
+                }
+                v.join(",")
+            };
+            let first = SourceBlockEncoder::new(0, &cfg, &data);          // fresh solve (or cache fill)
+            let second = SourceBlockEncoder::new(0, &cfg, &data);         // std: served from the plan cache
+            let plan = SourceBlockEncodingPlan::generate(k as u16);
+            let planned = SourceBlockEncoder::with_encoding_plan(0, &cfg, &data, &plan);
+            let obj = Encoder::new(&data, cfg);
+            let via_object = show(&obj.get_block_encoders()[0]);
+            // and a decode of a fixed erasure pattern
+            let mut dec = SourceBlockDecoder::new(0, &cfg, data.len() as u64);
+            let mut res = None;
+            let mut pk: Vec<EncodingPacket> = first.source_packets().into_iter().skip(k.min(2)).collect();
+            pk.extend(first.repair_packets(3, 4));
+            for p in pk {
+                if res.is_none() {
+                    res = dec.decode(std::iter::once(p));
+                }
+            }
+            format!("flavours\nNEW {}\nCACHED {}\nPLANNED {}\nOBJECT {}\nDECODED {}", show(&first), show(&second), show(&planned), via_object,
+                    match res { Some(d) => hex(&d), None => "none".to_string() })
+        }),
         "plan" => catch(|| {
             let p = SourceBlockEncodingPlan::generate(arg(&a, 1));
             let q = SourceBlockEncodingPlan::generate(arg(&a, 1));
